@@ -58,7 +58,7 @@ def campaign(job):
             E = base @ P @ tool_local
             home = base @ tool_local
             for m in (E, N, rf.trans_inv(E) @ N, home, home @ rf.trans_inv(E) @ N):
-                if rf.rot_angle(m[:3, :3]) > PI - 3e-4:
+                if rf.rot_angle(m[:3, :3]) > PI - 1e-3:
                     tainted = True      # known finding log_near_pi: the new home pose is only accurate to ~1e-7..1e-4
             tool_local = rf.trans_inv(P) @ rf.trans_inv(base) @ N
             ev.append({"op": "setArbitraryHome", "n": 1, "th": 1})
